@@ -156,6 +156,41 @@ def t_bilinear(k, dim=2):
     return [str(res)], before, attrs(inputs)
 
 
+def t_attributes(k):
+    """public attributes whose order could come from a set: free fields / constants of a form, the space of a
+    functional, the constants of an analytical mapping"""
+    from sympde.topology import Square, PolarMapping, ScalarFunctionSpace, VectorFunctionSpace, element_of, elements_of
+    from sympde.expr import LinearForm, BilinearForm, integral, Functional
+    from sympde.core import Constant
+    from sympde.calculus import dot
+    from sympy import Add
+    D = Square('A')
+    V = ScalarFunctionSpace('V', D)
+    W = VectorFunctionSpace('W', D)
+    u, v, f, g, h = elements_of(V, names='u, v, f, g, h')
+    w = element_of(W, 'w')
+    a, b, c = [Constant(n) for n in 'abc']
+    terms = perm([a * f * v, b * g * v, c * h * v], k)
+    l = LinearForm(v, integral(D, Add(*terms)))
+    bl = BilinearForm((u, v), integral(D, Add(*perm([a * f * u * v, b * g * u * v, c * h * u * v], k))))
+    fn = Functional(Add(*perm([f * dot(w, w), g * h], k)), D)
+    M = PolarMapping('F', dim=2)
+    res = [str(l.fields), str(l.constants), str(bl.fields), str(bl.constants), str(fn.space), str(fn.fields),
+           str(M.constants), str(sorted(l.get_free_variables()))]
+    return res, [], []
+
+
+def t_ring(k):
+    """two patches joined along TWO faces (a ring): the result must not depend on the order of the two entries"""
+    from sympde.topology import Square, Domain
+    A = Square('A', bounds1=(0, 1))
+    B = Square('B', bounds1=(1, 2))
+    conn = perm([((A, 0, 1), (B, 0, -1), 1), ((A, 0, -1), (B, 0, 1), 1)], k)
+    Om = Domain.join([A, B], conn, 'Om')
+    res = sorted(str((str(i.name), str(i.minus), str(i.plus), str(i.ornt))) for i in Om.interfaces.args)
+    return res + [str(Om.boundary)], [], []
+
+
 def t_vector3d(k, dim=3):
     from sympde.topology import Domain, VectorFunctionSpace, elements_of
     from sympde.calculus import curl, div, dot
@@ -316,7 +351,7 @@ def t_analytic(k):
     return [str(res), str(M.jacobian_expr)], [], []
 
 
-TARGETS = {"analytic": t_analytic, "iface_mapped": t_iface_mapped, "shared_bc": t_shared_bc, "bilinear": t_bilinear, "vector3d": t_vector3d, "logical": t_logical, "join": t_join, "union": t_union,
+TARGETS = {"attributes": t_attributes, "ring": t_ring, "analytic": t_analytic, "iface_mapped": t_iface_mapped, "shared_bc": t_shared_bc, "bilinear": t_bilinear, "vector3d": t_vector3d, "logical": t_logical, "join": t_join, "union": t_union,
            "equation": t_equation, "norm": t_norm, "polar": t_polar}
 
 
